@@ -133,6 +133,31 @@ class Check:
             out.append(self.eq(f"{name}[{','.join(map(str, idx))}]", A[idx], B[idx], **kw))
         return out
 
+    def eq_block(self, name, A, B, **kw):
+        """one obligation for a whole array equality (all entries must be proved); the first failing entry is reported"""
+        import numpy as np
+
+        A = np.asarray(A, dtype=object)
+        B = np.asarray(B, dtype=object)
+        if A.shape != B.shape:
+            return self.record(name, "refuted", "shape", 0.0, kw.get("fn"), kw.get("goal"), f"shape {A.shape} != {B.shape}", replay=kw.get("replay"))
+        t0 = time.time()
+        sub = Check(self.pid, self.tier, self.seed, self.level)
+        sub.rng = self.rng
+        n = 0
+        for idx in np.ndindex(A.shape):
+            n += 1
+            o = sub.eq(f"{name}[{','.join(map(str, idx))}]", A[idx], B[idx], **kw)
+            if o["verdict"] != "discharged":
+                self._nf_spent += sub._nf_spent
+                return self.record(o["name"], o["verdict"], o["backend"], time.time() - t0, o.get("fn"), o.get("goal"), o.get("detail"), o.get("witness"), o.get("replay"))
+        self._nf_spent += sub._nf_spent
+        for s_ in sub.trusted:
+            self.trust(s_)
+        backends = {o["backend"] for o in sub.obls}
+        return self.record(name, "discharged", "+".join(sorted(backends)) or "syntactic-identity", time.time() - t0, kw.get("fn"),
+                           (kw.get("goal") or "") + f"  [{n} entries]", replay=kw.get("replay"))
+
     # -- SMT obligations ------------------------------------------------------------------------------
     def smt(self, name, assumptions, goal_sym, *, fn=None, goal=None, replay=None, timeout_ms=None):
         t0 = time.time()
